@@ -8,7 +8,7 @@ BUDGET = {'quick': 70, 'thorough': 600}
 RULE = ('(a) algebra: deep before/after snapshot of every input of merge/embed/mask/forwards/sort_params/apply_params '
         '(parameter objects by identity, sources map, every list, depths) over the algebra workloads incl. raising calls, '
         'plus aliasing of result maps/lists with inputs; (b) retrieval under faults: for each scenario object the calls that '
-        'cross from sigtools into outside code are numbered in a passive run, then the retrieval is re-run once per '
+        'cross from sigtools into outside code (scenarios: wraps chains, __signature__ attributes, every forwards_to_* form, modifiers, wrappers, partials, callable instances, an object whose __delattr__ is user code, ...) are numbered in a passive run, then the retrieval is re-run once per '
         '(crossing, exception class) with that crossing raising, and the attribute snapshot of every reachable object and the '
         'as_forged recursion guard are compared with the initial ones. Non-trivial: an algebra call with inputs, or an '
         'injected run; distinct by (operation, inputs, outcome) resp. (scenario, crossing, exception class).')
